@@ -54,3 +54,12 @@ VARIANTS += [
     V("dyadic-descent-fallback-without-split", BI, "                    interval._split_exact(midway)\n                    break\n", "                    break\n", rule="R07.8"),
     V("twin-dyadic-descent-guard-spelled-out", BI, "                if not interval._start < halfway < interval._end:", "                if halfway <= interval._start or halfway >= interval._end:", expect="silent"),
 ]
+
+LOOKUP = "        try:\n            return self._top._increment_and_space_time_levy_area_cache[self]\n        except KeyError:\n"
+GETFORM = "        cached = self._top._increment_and_space_time_levy_area_cache.get(self)\n        if cached is not None:\n            return cached\n        else:\n"
+VARIANTS += [
+    # round-6 seed: the cache look-up through a method only dicts have (cache_size = 0 installs a stub that is not a dict)
+    V("cache-lookup-through-get", BI, LOOKUP, GETFORM, rule="R07.4"),
+    V("twin-cache-lookup-through-get-stub-answers", BI, LOOKUP, GETFORM, expect="silent",
+      more=(("    def __getitem__(self, item):\n        raise KeyError\n", "    def __getitem__(self, item):\n        raise KeyError\n\n    def get(self, item, default=None):\n        return default\n"),)),
+]
